@@ -165,6 +165,14 @@ def crash_items(tier):
             if h[0] in ("gc", "archive", "run-again"):
                 continue
             out.append({"kind": "crash", "history": list(h)})
+    if tier == "thorough":
+        for h3 in itertools.product(["run-ok", "run-fail", "archive"], repeat=3):
+            for last in ("restore", "run-again", "gc"):
+                if last == "restore" and "archive" not in h3:
+                    continue
+                if h3[0] == "archive":
+                    continue
+                out.append({"kind": "crash", "history": list(h3) + [last]})
     if tier == "quick":
         for h in (["run-ok", "archive", "restore"], ["run-ok", "run-fail", "gc"], ["run-ok", "run-again", "archive"], ["run-fail", "run-ok", "run-again"]):
             out.append({"kind": "crash", "history": h})
